@@ -95,8 +95,13 @@ def _top(n):
     return top
 
 
+_QUIET = []
+
+
 def _check(task):
     import mdtraj as md
+    if not _QUIET:      # theobald_rmsd.cpp reports degenerate (planar) fits on the C stderr, thousands of times: drop them in the worker
+        _QUIET.append(os.dup2(os.open(os.devnull, os.O_WRONLY), 2))
     case, q, seed = task
     rs = np.random.RandomState(seed)
     X = np.array(case["x"], dtype=float); Y = np.array(case["y"], dtype=float)
@@ -135,6 +140,17 @@ def _check(task):
         r3 = float(md.rmsd(tc, rc, 0, precentered=True)[0])
         if abs(r3 * r3 - exp) > tol:
             probs.append("rmsd(precentered=True) after center_coordinates differs from the minimum (n=%d)" % n)
+        # ... and the shortcut is only as good as the centring: after superposing the centred copies onto an off-origin frame the
+        # flag must either be refused or give the same number
+        if k in (2, 5):
+            anchor = md.Trajectory((B + 2.5).astype(np.float32)[None], ref.topology)      # (md.rmsd has centred ref in place by now)
+            tc.superpose(anchor, 0); rc.superpose(anchor, 0)
+            try:
+                r5 = float(md.rmsd(tc, rc, 0, precentered=True)[0])
+            except ValueError:
+                r5 = None
+            if r5 is not None and abs(r5 * r5 - exp) > tol:
+                probs.append("rmsd(precentered=True) after center_coordinates and a later superpose differs from the minimum (n=%d)" % n)
         # separate atom selections for target and reference (any order): pair perm[i] of a shuffled target with i of the reference
         tsh = md.Trajectory(t.xyz[:, np.argsort(perm)].copy(), t.topology)          # atom perm[i] of tsh = atom i of t
         r4 = float(md.rmsd(tsh, ref, 0, atom_indices=perm, ref_atom_indices=np.arange(n))[0])
